@@ -77,7 +77,7 @@ let parse_sig line : program =
   let ni () = n_of_int (int_of_string (next ())) in
   let nb () = b_of (next ()) in
   let rk () = match next () with "v" -> RV | "i" -> RI | t -> raise (Parse ("rkind " ^ t)) in
-  let is_section t = (t = "S" || t = "A" || t = "M" || t = "") in
+  let is_section t = (t = "S" || t = "A" || t = "M" || t = "O" || t = "") in
   let parse_op () : op =
     match next () with
     | "tnew" -> let t = ni () in OTNew t
@@ -85,6 +85,8 @@ let parse_sig line : program =
     | "tasg" -> let a = ni () in let b = ni () in OTAssign (a, b)
     | "tmasg" -> let a = ni () in let b = ni () in OTMoveAssign (a, b)
     | "tnot" -> let t = ni () in OTNotify t
+    | "tnewsh" -> let t = ni () in OTNewShared t
+    | "trel" -> let t = ni () in OTRelease t
     | "snew" ->
         let s = ni () in let k = rk () in let body = ni () in let _shape = next () in
         let cnt = int_of_string (next ()) in
@@ -143,15 +145,15 @@ let parse_sig line : program =
   let parse_acc () : accop =
     match next () with
     | "acopy" -> let a = ni () in let b = ni () in ACopy (a, b)
-    | "ainc" -> let k = ni () in AInc k
-    | "adec" -> let k = ni () in ADec k
+    | "ainc" | "aincp" -> let k = ni () in AInc k
+    | "adec" | "adecp" -> let k = ni () in ADec k
     | "aderef" -> let k = ni () in ADeref k
-    | "awalk" -> let k = ni () in AWalk k
-    | "awalkrev" -> let k = ni () in AWalkRev k
+    | "awalk" | "awalkp" -> let k = ni () in AWalk k
+    | "awalkrev" | "awalkrevp" -> let k = ni () in AWalkRev k
     | "awalkuntil" -> let k = ni () in let z = ni () in AWalkUntil (k, z)
     | t -> raise (Parse ("accop " ^ t)) in
   let rec accops acc = if is_section (peek ()) then List.rev acc else let o = parse_acc () in accops (o :: acc) in
-  let scripts = ref [] and accs = ref [] and main = ref [] in
+  let scripts = ref [] and accs = ref [] and main = ref [] and owns = ref [] in
   while !pos < Array.length toks do
     match next () with
     | "S" ->
@@ -164,9 +166,11 @@ let parse_sig line : program =
         scripts := (id, (o, rs)) :: !scripts
     | "A" -> let id = ni () in let o = accops [] in accs := (id, o) :: !accs
     | "M" -> main := ops []
+    | "O" -> let b = ni () in let cnt = int_of_string (next ()) in
+        let ts = List.init cnt (fun _ -> ni ()) in owns := (b, ts) :: !owns
     | t -> raise (Parse ("section " ^ t))
   done;
-  { p_scripts = List.rev !scripts; p_accs = List.rev !accs; p_main = !main }
+  { p_scripts = List.rev !scripts; p_accs = List.rev !accs; p_owns = List.rev !owns; p_main = !main }
 
 let print_event (b : Buffer.t) (e : event) : unit =
   let i = int_of_n in
